@@ -117,6 +117,7 @@ static Register a1("c13.desc.k2", "C13", "all descriptions with <=2 rules over 3
 static Register a2("c13.desc.k3", "C13", "all descriptions with <=3 rules", [](Env& e) { descRoundTrip(e, "c13.desc.k3", 3); });
 static Register b1("c13.enc.tree.n2s2k3", "C13", "every automaton of TA(2,{a:0,b:0,g:2},<=3): dump/load/dump in expl, bdd-bu, bdd-td with state dictionaries", [](Env& e) { encTree(e, "c13.enc.tree.n2s2k3", 2, dom::Sigma2(), 3); });
 static Register b2("c13.enc.tree.n3s3pk3", "C13", "every automaton of TA(3,{a:0,f:1,g:2},<=3): dump/load/dump in the three tree encodings", [](Env& e) { encTree(e, "c13.enc.tree.n3s3pk3", 3, dom::Sigma3p(), 3); });
+static Register b5("c13.enc.tree.ov.n2k3", "C13", "every automaton of TA(2,{a:0,a:2,b:0},<=3) (one symbol name with two arities): dump/load/dump in the three tree encodings", [](Env& e) { encTree(e, "c13.enc.tree.ov.n2k3", 2, dom::SigmaOv(), 3); });
 static Register b3("c13.enc.fa.n2l2k3", "C13", "every NFA of FA(2,{a,b},<=3) (also with a second start symbol on a start state): dump/load/dump in expl_fa", [](Env& e) { encFA(e, "c13.enc.fa.n2l2k3", 2, 2, 3); });
 static Register b4("c13.enc.fa.n3l2k4", "C13", "every NFA of FA(3,{a,b},<=4): dump/load/dump in expl_fa", [](Env& e) { encFA(e, "c13.enc.fa.n3l2k4", 3, 2, 4); });
 static Register c1("c13.text.len3", "C13", "all 21^3 token strings: parser and the four loaders", [](Env& e) { tokenStrings(e, "c13.text.len3", 3); });
